@@ -57,7 +57,7 @@ func (g *tmplGen) printable() string {
 	if g.r.Chance(3) {
 		return g.r.Pick([]string{"zz", "fail()", "xs[9]", "boom()", "st.hidden", "nilv.x"})
 	}
-	return g.r.Pick([]string{"s1", "s2", "g1", "num", "name", "st.Name", "m1.k", "one()", "recs(" + strconv.FormatInt(g.nextK(), 10) + ", s1)", "len(xs)", "1+2", "'lit'", "nilv", "s1", "s2", "st.Tags[0]", "1.5", "num / 2.0", "0.1 + 0.2", "1e21", "100000.0 * 10", "-0.0", "num * 1e-7"})
+	return g.r.Pick([]string{"s1", "s2", "g1", "num", "name", "st.Name", "m1.k", "one()", "recs(" + strconv.FormatInt(g.nextK(), 10) + ", s1)", "len(xs)", "1+2", "'lit'", "nilv", "s1", "s2", "st.Tags[0]", "1.5", "num / 2.0", "0.1 + 0.2", "1e21", "100000.0 * 10", "-0.0", "num * 1e-7", "p4.Next()", "q4.Next()", "q4.Self()", "p4.Self()", "true", "false", "true"})
 }
 
 func (g *tmplGen) mixture() string {
@@ -146,7 +146,7 @@ func (g *tmplGen) elem(cond string) *TNode {
 	var attrs []TAttr
 	saved := len(g.strVars)
 	if g.r.Chance(20) {
-		v := g.r.Pick([]string{"v1", "v2", "s1", "num"})
+		v := g.r.Pick([]string{"v1", "v2", "s1", "num", "v1", "v2", "true", "false", "len"}) // built-in names can be shadowed too
 		val := v + " := ${" + g.printable() + "}"
 		if g.r.Chance(25) {
 			val += g.r.Pick([]string{"; ", ";", " ; "}) + "w := ${'W'}"
